@@ -1381,6 +1381,7 @@ func runC04(c *core.Ctx) core.Meta {
 	checkSMEMOperands(c, t)
 	checkSOP2Operands(c, t)
 	checkDSDestinationPrinted(c, t)
+	checkEveryRowPrints(c, t)
 	checkModifierFlags(c)
 	checkOperandsFresh(c)
 	checkOpcodeOperandsPrinted(c)
